@@ -1292,7 +1292,7 @@ class CSSMatch(_DocumentNav):
             # Search meta tags
             if found and parent is not None:
                 for child2 in parent:
-                    if isinstance(child2, bs4.Tag) and self.get_tag(child2) == 'meta' and self.is_html_tag(parent):
+                    if isinstance(child2, bs4.Tag) and self.get_tag(child2) == 'meta' and self.is_html_tag(child2):
                         c_lang = False
                         content = None
                         for k, v in self.iter_attributes(child2):
